@@ -41,12 +41,13 @@ Triplet(k) ==
     ELSE (IF pol # "sigma" THEN << Comp(PiShare, "c", k) >> ELSE <<>>) \o
          (IF pol # "pi" THEN << Comp(SigmaShare, "z+", k), Comp(SigmaShare, "z-", k) >> ELSE <<>>)
 
-\* Zeeman multiplet: pi ratios (1/2, 1/2), sigma+ ratios (2/3, 1/3), sigma- ratios (1/4, 3/4)
+\* Zeeman multiplet: pi ratios (1/2, 1/2), sigma+ ratios (2/3, 1/3), sigma- ratios (1/4, 1/2, 1/4): the two sigma groups
+\* need not have the same number of components
 MultipletZ ==
     IF bzero THEN << Comp(IF pol = "no" THEN R(1) ELSE Half, "c", "g") >>
     ELSE (IF pol # "sigma" THEN Scale(PiShare, << Comp(<<1, 2>>, "p1", "g"), Comp(<<1, 2>>, "p2", "g") >>) ELSE <<>>) \o
          (IF pol # "pi" THEN Scale(SigmaShare, << Comp(<<2, 3>>, "sp1", "g"), Comp(<<1, 3>>, "sp2", "g") >>) \o
-                             Scale(SigmaShare, << Comp(<<1, 4>>, "sm1", "g"), Comp(<<3, 4>>, "sm2", "g") >>) ELSE <<>>)
+                             Scale(SigmaShare, << Comp(<<1, 4>>, "sm1", "g"), Comp(<<1, 2>>, "sm2", "g"), Comp(<<1, 4>>, "sm3", "g") >>) ELSE <<>>)
 
 \* motional Stark multiplet with sigma/pi = 1/2, sigma1/sigma0 = 1/2, pi2/pi3 = 1/2, pi4/pi3 = 1/4
 MSE == LET s == <<1, 2>>  s1 == <<1, 2>>  p2 == <<1, 2>>  p4 == <<1, 4>>
